@@ -137,6 +137,11 @@ structure St where
   pendingBidi : List Nat := []
   /-- judge mode: the streams the implementation's `accept_uni` calls surfaced, in order -/
   choices : Option (List Nat) := none
+  /-- judge mode: the answers of the implementation's `accept_bi` calls, in order; how many of them have been
+      matched so far.  Used at ONE place: where the specification allows two continuations (D-19b: an error, or
+      the recorded leniency) the judge follows the one the implementation took. -/
+  abObs : List String := []
+  abN : Nat := 0
   out : List String := []
   /-- per position the acceptable tokens (`*` = any run of characters; `?absent` = the token may be missing) -/
   spec : List (List String) := []
@@ -167,10 +172,13 @@ def parseHeader (bs : List Nat) : Option (Nat × Nat × List Nat) :=
     | none => none
   | none => none
 
-def St.log (st : St) (m s : String) : St := { st with out := st.out ++ [m], spec := st.spec ++ [[s]] }
+def St.log (st : St) (m s : String) : St :=
+  { st with out := st.out ++ [m], spec := st.spec ++ [[s]],
+            abN := if m.startsWith "conn.ab=" then st.abN + 1 else st.abN }
 def St.log1 (st : St) (m : String) : St := st.log m m
 def St.logAlt (st : St) (m : String) (alts : List String) : St :=
-  { st with out := st.out ++ [m], spec := st.spec ++ [alts] }
+  { st with out := st.out ++ [m], spec := st.spec ++ [alts],
+            abN := if m.startsWith "conn.ab=" then st.abN + 1 else st.abN }
 
 def getPeer (st : St) (id : Nat) : Option Peer := st.peers.find? (·.id == id)
 def updPeer (st : St) (id : Nat) (f : Peer → Peer) : St :=
@@ -332,6 +340,11 @@ def abHold (st : St) (task : String) (b : Nat) : St :=
     | (.frame (.webTransport x), s, rest) =>
       -- the specification's view comes from the RFC parsers over the stream's own bytes
       let cls := p.bidiClass
+      -- judge mode, D-19b: an implementation that refuses the late signal (what the draft demands) has raised a
+      -- connection error, H3_FRAME_ERROR; the judge follows it
+      if (match cls with | .wtLate .. => true | _ => false) && ((st.abObs.getD st.abN "").startsWith "conn.ab=err") then
+        (st.raise "H3_FRAME_ERROR" 262).log "conn.ab=err:conn:local:H3_FRAME_ERROR" "conn.ab=err:*"
+      else
       let off : Nat := match cls with
         | .wt _ o => o
         | .wtLate _ o => o
@@ -812,9 +825,9 @@ structure Result where
   model : List String
   spec : List (List String)
 
-def run (cfg : String) (ops : List String) (choices : Option (List Nat)) : Result :=
+def run (cfg : String) (ops : List String) (choices : Option (List Nat)) (abObs : List String) : Result :=
   let enabled := (cfg.splitOn ",").contains "wt=1"
-  let st := ops.foldl step { wtEnabled := enabled, wc := cfgNat cfg "wc", choices := choices,
+  let st := ops.foldl step { wtEnabled := enabled, wc := cfgNat cfg "wc", choices := choices, abObs := abObs,
                              uc := (cfgNat cfg "uc").map (· - 3), bc := cfgNat cfg "bc" }
   let blocked := sortBy (fun (a b : String × Job) => decide (a.1 < b.1)) st.blocked
   let pend := blocked.map (fun (t, j) => s!"{t}.{j.op}=pending")
@@ -868,14 +881,14 @@ def untagTok (t : String) : String := (t.splitOn "#D-").headD t
 
 def handle : List String → String
   | "wt" :: _ :: cfg :: ops =>
-    let r := run cfg ops none
+    let r := run cfg ops none []
     -- the verdict of the specification on the model's own answers, the model's answers, and the
     -- demand on the implementation: its answers, judged by engine `wtj`, are `ok`
     " ".intercalate (judge 0 r.spec (r.model.map untagTok) :: r.model) ++ " ## ok **"
   | "wtj" :: _ :: cfg :: rest =>
     let ops := rest.takeWhile (· != "@@")
     let obs := (rest.dropWhile (· != "@@")).drop 1
-    let r := run cfg ops (some (obs.filterMap choiceOf))
+    let r := run cfg ops (some (obs.filterMap choiceOf)) (obs.filter (·.startsWith "conn.ab="))
     judge 0 r.spec obs
   | _ => "bad-op"
 
